@@ -36,9 +36,10 @@ Definition pg_dict := list (pg_key * pg_val).
 Inductive pg_cell : Type :=
 | PcObj (v : pg_val)
 | PcStream (d : pg_dict) (data : list N) (key : N).
-(* key: 0 = the stream has its own data; k > 0 = the data comes from the foreign-stream provider
-   (Streams::Copier), which finds it under the object number k the copy was CREATED with
-   (copied_data / copied_streams are keyed by the destination objgen) *)
+(* key: 0 = the stream has its own data (the data field); k > 0 = the stream was created by the
+   foreign copier and its data comes from the foreign-stream provider (Streams::Copier), which
+   looks it up in a per-document table keyed by the objgen the reader CURRENTLY has
+   (copied_data / copied_streams, filled under the objgen the copy was created with = k) *)
 
 Definition pg_store := list (N * pg_cell).
 
@@ -198,22 +199,25 @@ Record pg_doc := mkPgDoc {
   pd_pos : list (N * Z);             (* pageobj_to_pages_pos *)
   pd_pushed : bool;                  (* pushed_inherited_attributes_to_pages *)
   pd_invalid : bool;                 (* invalid_page_found *)
-  pd_omap : list (N * N)             (* Foreign::Copier::object_map for the other document *)
+  pd_omap : list (N * N);            (* Foreign::Copier::object_map for the other document *)
+  pd_reg : list (N * list N)         (* Streams::Copier::copied_data/copied_streams: objgen -> data *)
 }.
 Definition pd_with_store (p : pg_doc) (s : pg_store) : pg_doc :=
-  mkPgDoc s (pd_root p) (pd_all p) (pd_pos p) (pd_pushed p) (pd_invalid p) (pd_omap p).
+  mkPgDoc s (pd_root p) (pd_all p) (pd_pos p) (pd_pushed p) (pd_invalid p) (pd_omap p) (pd_reg p).
 Definition pd_with_all (p : pg_doc) (a : list N) : pg_doc :=
-  mkPgDoc (pd_store p) (pd_root p) a (pd_pos p) (pd_pushed p) (pd_invalid p) (pd_omap p).
+  mkPgDoc (pd_store p) (pd_root p) a (pd_pos p) (pd_pushed p) (pd_invalid p) (pd_omap p) (pd_reg p).
 Definition pd_with_pos (p : pg_doc) (m : list (N * Z)) : pg_doc :=
-  mkPgDoc (pd_store p) (pd_root p) (pd_all p) m (pd_pushed p) (pd_invalid p) (pd_omap p).
+  mkPgDoc (pd_store p) (pd_root p) (pd_all p) m (pd_pushed p) (pd_invalid p) (pd_omap p) (pd_reg p).
 Definition pd_with_pushed (p : pg_doc) (b : bool) : pg_doc :=
-  mkPgDoc (pd_store p) (pd_root p) (pd_all p) (pd_pos p) b (pd_invalid p) (pd_omap p).
+  mkPgDoc (pd_store p) (pd_root p) (pd_all p) (pd_pos p) b (pd_invalid p) (pd_omap p) (pd_reg p).
 Definition pd_with_invalid (p : pg_doc) (b : bool) : pg_doc :=
-  mkPgDoc (pd_store p) (pd_root p) (pd_all p) (pd_pos p) (pd_pushed p) b (pd_omap p).
+  mkPgDoc (pd_store p) (pd_root p) (pd_all p) (pd_pos p) (pd_pushed p) b (pd_omap p) (pd_reg p).
 Definition pd_with_omap (p : pg_doc) (m : list (N * N)) : pg_doc :=
-  mkPgDoc (pd_store p) (pd_root p) (pd_all p) (pd_pos p) (pd_pushed p) (pd_invalid p) m.
+  mkPgDoc (pd_store p) (pd_root p) (pd_all p) (pd_pos p) (pd_pushed p) (pd_invalid p) m (pd_reg p).
+Definition pd_with_reg (p : pg_doc) (m : list (N * list N)) : pg_doc :=
+  mkPgDoc (pd_store p) (pd_root p) (pd_all p) (pd_pos p) (pd_pushed p) (pd_invalid p) (pd_omap p) m.
 
-Definition pg_init_doc (s : pg_store) (root : N) : pg_doc := mkPgDoc s root [] [] false false [].
+Definition pg_init_doc (s : pg_store) (root : N) : pg_doc := mkPgDoc s root [] [] false false [] [].
 
 (* getRoot().getKey("/Pages") *)
 Definition pg_root_pages (p : pg_doc) : pg_val := pg_hget (pd_store p) (PvRef (pd_root p)) k_Pages.
@@ -521,6 +525,21 @@ Definition pg_find (p : pg_doc) (og : N) : pg_doc * option pg_err * Z :=
       end
   end.
 
+(* ---------------------------------------------------------------- stream data *)
+Fixpoint pg_reg_find (m : list (N * list N)) (i : N) : option (list N) :=
+  match m with [] => None | (j, x) :: m' => if i =? j then Some x else pg_reg_find m' i end.
+Fixpoint pg_reg_set (m : list (N * list N)) (i : N) (x : list N) : list (N * list N) :=
+  match m with
+  | [] => [(i, x)]
+  | (j, y) :: m' => if i =? j then (i, x) :: m' else (j, y) :: pg_reg_set m' i x
+  end.
+(* getRawStreamData of object i: None = "error getting raw stream data" *)
+Definition pg_stream_data (p : pg_doc) (i : N) : option (list N) :=
+  match pg_lookup (pd_store p) i with
+  | Some (PcStream _ data k) => if k =? 0 then Some data else pg_reg_find (pd_reg p) i
+  | _ => None
+  end.
+
 (* ---------------------------------------------------------------- foreign copier *)
 Fixpoint pg_omap_find (m : list (N * N)) (i : N) : option N :=
   match m with [] => None | (j, l) :: m' => if i =? j then Some l else pg_omap_find m' i end.
@@ -659,30 +678,31 @@ Definition pg_copied (src dst : pg_doc) (fid : N) : pg_doc * pg_doc * option pg_
   | Some e => (src, pd_with_omap (pd_with_store dst (c_dst c)) (c_omap c), Some e, PvNull)
   | None =>
       let ss := pd_store src in
-      let '(ds, e) :=
-        fold_left (fun '(ds, e) og =>
+      let '(ds, reg, e) :=
+        fold_left (fun '(ds, reg, e) og =>
           match e with
-          | Some _ => (ds, e)
+          | Some _ => (ds, reg, e)
           | None =>
             match pg_omap_find (c_omap c) og with
-            | None => (ds, Some PeUnm)
+            | None => (ds, reg, Some PeUnm)
             | Some l =>
               match pg_lookup ss og with
               | Some (PcStream d data _) =>
                   (* keys are replaced into the (fresh, empty) dictionary of the local stream; copy_data_to
                      registers the provider under the local object number *)
                   let d0 := match pg_lookup ds l with Some (PcStream d0 _ _) => d0 | _ => [] end in
-                  (pg_supd ds l (PcStream (fold_left (fun acc kv => pg_dset acc (fst kv) (snd kv)) (pg_rename_dict ss (c_omap c) d) d0) data l), None)
+                  (pg_supd ds l (PcStream (fold_left (fun acc kv => pg_dset acc (fst kv) (snd kv)) (pg_rename_dict ss (c_omap c) d) d0) [] l),
+                   match pg_stream_data src og with Some x => pg_reg_set reg l x | None => reg end, None)
               | Some (PcObj v) =>
                   (* replaceReserved: the local object must be reserved or null *)
                   if pg_is_null ds (PvRef l)
-                  then (pg_supd ds l (PcObj (pg_rename ss (c_omap c) v)), None)
-                  else (ds, Some PeLogic)
-              | None => (ds, Some PeUnm)
+                  then (pg_supd ds l (PcObj (pg_rename ss (c_omap c) v)), reg, None)
+                  else (ds, reg, Some PeLogic)
+              | None => (ds, reg, Some PeUnm)
               end
             end
-          end) (rev' (c_tocopy c)) (c_dst c, None) in
-      let dst := pd_with_omap (pd_with_store dst ds) (c_omap c) in
+          end) (rev' (c_tocopy c)) (c_dst c, pd_reg dst, None) in
+      let dst := pd_with_reg (pd_with_omap (pd_with_store dst ds) (c_omap c)) reg in
       match e with
       | Some _ => (src, dst, e, PvNull)
       | None =>
@@ -927,13 +947,6 @@ Definition pg_step (w : pg_world) (o : pg_op) : pg_world * pg_res :=
   | PoMakeIndirect d v =>
       let p := pg_get w d in
       let '(s, j) := pg_alloc (pd_store p) (PcObj v) in (pg_put w d (pd_with_store p s), PrId j)
-  end.
-
-(* can the data of stream object i be produced? (pipeStreamData asks the provider with the CURRENT objgen) *)
-Definition pg_stream_readable (s : pg_store) (i : N) : bool :=
-  match pg_lookup s i with
-  | Some (PcStream _ _ k) => (k =? 0) || (k =? i)
-  | _ => false
   end.
 
 (* marker (/Mk) of an object, used by observations *)
